@@ -31,7 +31,7 @@ TInit == /\ TLCSet(1, {})
          /\ txin = [t \in Txs |-> ToSet(Traces[tid].txin[t])]
          /\ own = Traces[tid].own
          /\ cont = [h \in Hashes |-> ToSet(Traces[tid].cont[h])]
-         /\ ws = [q \in OPs |-> NoRec] /\ lbi = Base - 1 /\ wview = <<>>
+         /\ ws = [q \in OPs |-> NoRec] /\ lbi = -1 /\ wview = <<>>
          /\ pend = <<>> /\ atomic = TRUE
          /\ seen = {} /\ mseen = {} /\ sent = {}
          /\ phase = "run" /\ ndel = 0 /\ nmem = 0 /\ nsend = 0 /\ nrew = 0
